@@ -133,7 +133,7 @@ def main():
      "engines": [{"name": "gffsim", "path": "sim/", "serves_properties": sorted(CHECKS),
                   "kind_free_text": "deterministic simulation with fault injection: forked node processes running real gffutils under stdlib-level seams, seeded workload/fault/schedule generation, reference model, delta-debugging replay files"}],
      "checks": [], "not_applicable": [],
-     "notes": "checks/run.py <ID> --tier quick|thorough [--replay file]; exit 0 pass (KNOWN-FINDING lines possible), 1 VIOLATION, 2 HARNESS-ERROR. known_findings.json lists recorded and fixed defects.",
+     "notes": "checks/run.py <ID> --tier quick|thorough [--replay file]; exit 0 pass (KNOWN-FINDING lines possible), 1 VIOLATION, 2 HARNESS-ERROR. known_findings.json lists recorded and fixed defects. Every run additionally draws environment knobs (sim/env.py: odd database file names, verbose, CRLF, documented no-op flags, equivalent text factory / default_encoding, a process-reuse prelude) that the unchanged library must be indifferent to; they are part of the replay file.",
     }
     for cid in sorted(CHECKS):
         c = CHECKS[cid]
